@@ -150,6 +150,9 @@ def proof_stage(P, tier):
                              + "\n" + "\n".join(out.strip().split("\n")[-25:]))
     # Re-check Props.v itself on every run so the assumption reports are this run's.
     props_v = os.path.join(propdir, "Props.v")
+    if not os.path.exists(props_v):
+        res["errors"].append("no Props.v")
+        return res
     src = re.sub(r"\(\*.*?\*\)", " ", open(props_v).read(), flags=re.S)
     thms = re.findall(r"^\s*(?:Theorem|Lemma|Corollary)\s+(\w+)", src, flags=re.M)
     res["theorems"] = thms
